@@ -81,8 +81,10 @@ func VerifC18Sync() {
 	zzverif.Assert(requests >= 1, "the leader was asked")
 }
 
-// VerifC18Concurrent: two follower reads while the leader's revision advances: a successful read
-// uses a revision >= the leader's committed revision at the moment the read began.
+// VerifC18Concurrent: two follower reads while the leader's revision advances and while any one
+// of the leader's answers is an error or never arrives: a successful read uses a revision >= the
+// leader's committed revision at the moment the read began (a read that cannot get such a revision
+// fails).
 func VerifC18Concurrent() {
 	// the leader's revision is read and written only inside gate passages (zzverif.AtGate), so the
 	// recorded order of gates fixes every value a native replay sees
@@ -92,13 +94,32 @@ func VerifC18Concurrent() {
 	leaderRev := uint64(10)
 	asked := make([]int, 2)
 	cur := -1
+	// the leader's k-th answer is an error status or never arrives (0: every request is answered)
+	failAt := zzverif.Choose("failAt", zzverif.Param("failat", 3)+1)
+	failHow := 0
+	if failAt != 0 {
+		failHow = zzverif.Choose("failHow", 2)
+	}
+	nreq := 0
 	zzverif.SetHTTPHandler(func(url string) zzverif.HTTPResult {
 		var r uint64
-		zzverif.AtGate("leader.sample", func() { r = leaderRev })
+		fail := false
+		zzverif.AtGate("leader.sample", func() {
+			r = leaderRev
+			nreq++
+			fail = nreq == failAt
+		})
 		body, _ := json.Marshal(LeaderRevision{Revision: r})
 		zzverif.YieldAt("leader.answer")
 		// the answer can be on its way for a while (a reader that joins meanwhile shares it)
 		zzverif.YieldAt("leader.answered")
+		if fail {
+			zzverif.Cover("leader-failed-once")
+			if failHow == 1 {
+				return zzverif.HTTPResult{Unreachable: true}
+			}
+			return zzverif.HTTPResult{Status: 503, Body: []byte("busy")}
+		}
 		return zzverif.HTTPResult{Status: 200, Body: body}
 	})
 	_ = cur
